@@ -593,3 +593,80 @@ UNITS += [
          assumptions=["std::stable_partition (partition_initializers) and fill_sequence by assumed contracts; the index table is a ghost state (stale / identity / partitioned)", "kernel launch replaced by its contract (c02_init_tracks_indices, c17_launch_core)"],
          note="InitializeTracksAction::step_impl (host): min(vacancies, initializers) tracks are started by one launch; with charge ordering the index table is re-filled and partitioned for exactly that count before the kernel reads it; counters afterwards (queue, vacancies, active)"),
 ]
+
+
+# ---------------------------------------------------------------------------
+# ProcessPrimariesExecutor: every primary becomes exactly one initializer with a fresh track id of its own event and no parent
+# ---------------------------------------------------------------------------
+PPE = "src/celeritas/track/detail/ProcessPrimariesExecutor.hh"
+PPE_MODEL = """
+#define NP 8          /* primaries / initializer slots in this unit's harness (the executor handles one thread id; frame checked on a witness slot) */
+#define NEV 8
+typedef struct { size_type particle_id; real_type energy, position, direction, time; size_type event_id; } Primary;            /* Real3 members abstracted to one component */
+typedef struct { struct { size_type track_id, parent_id, event_id; real_type time; } sim; struct { real_type pos, dir; } geo; struct { size_type particle_id; real_type energy; } particle; } TrackInitializer;
+typedef struct { size_type num_initializers; } CoreStateCounters;
+typedef struct { TrackInitializer initializers[2 * NP]; size_type capacity; size_type track_counters[NEV]; } InitState;
+typedef struct { InitState* init; CoreStateCounters counters; Primary const* primaries; size_type nprimaries; } ProcessPrimariesExecutor;
+size_type g_w; TrackInitializer g_oldw; size_type g_old_counter;
+/* make_track_id (contract enforced in c02_make_track_id): the event's next id; that event's counter advances by one */
+static size_type MAKE_track_id(ProcessPrimariesExecutor const* self, size_type event)
+{
+    __CPROVER_assert(event < NEV, "celer_expect: make_track_id event < track_counters.size()");
+    size_type r = self->init->track_counters[event]; self->init->track_counters[event] = r + 1; return r;
+}
+#define SAME(a, b) ((a) == (b) || (__CPROVER_isnand(a) && __CPROVER_isnand(b)))
+"""
+PPE_RULES = UT_RULES + [
+    Rule(r"\b(?:TrackId|ThreadId|EventId|ParticleId)\{([^{}]+)\}", r"((size_type)(\1))", "*", note="OpaqueId construction from a value"),
+    Rule(r"primaries\.size\(\)", "self->nprimaries", "+", note="Span::size()"),
+    Rule(r"counters\.num_initializers", "self->counters.num_initializers", "+", note="data member"),
+    Rule(r"ItemId<TrackInitializer> idx\{\s*([^{};]*)\};", r"size_type idx = (\1);", 1, flags=16, note="ItemId construction -> integer"),
+    Rule(r"TrackInitializer& ti = state->init\.initializers\[idx\];", 'TrackInitializer* ti_ = (__CPROVER_assert(idx < self->init->capacity, "celer_expect: Collection::operator[] i < size (initializers)"), &self->init->initializers[idx]);', 1, note="Collection[idx] reference -> pointer, bounds asserted"),
+    Rule(r"Primary const& primary = primaries\[tid\];", "Primary const primary = self->primaries[tid];", 1, note="Span[tid] const reference -> copy"),
+    Rule(r"\bti\.", "ti_->", "+", note="reference -> pointer"),
+    Rule(r"make_track_id\(params->init, state->init, primary\.event_id\)", "MAKE_track_id(self, primary.event_id)", 1, note="make_track_id -> its contract"),
+    Rule(r"TrackId\{\}", "INVALID_ID", "*", note="default OpaqueId = invalid"),
+]
+
+
+def build_process_primaries(ctx):
+    ia = piece_index_after(ctx)
+    pc = ctx.func(PPE, r"^CELER_FUNCTION void ProcessPrimariesExecutor::operator\(\)\(ThreadId tid\) const", PPE_RULES, name="ProcessPrimariesExecutor::operator()")
+    return (HDR + ID_TYPES + PPE_MODEL + """
+static size_type index_after(size_type size, ThreadId tid)      /* real body (contract: c02_index_after) */
+{""" + ia.body + """}
+#define IDX (self->counters.num_initializers - self->nprimaries + tid)
+void PPE_call(ProcessPrimariesExecutor const* self, ThreadId tid)
+__CPROVER_requires(__CPROVER_r_ok(self, sizeof(*self)) && __CPROVER_rw_ok(self->init, sizeof(InitState)) && self->nprimaries >= 1 && self->nprimaries <= NP && __CPROVER_r_ok(self->primaries, self->nprimaries * sizeof(Primary)))
+__CPROVER_requires(tid != INVALID_ID && tid < self->nprimaries)                                             /* own CELER_EXPECT */
+/* the primaries have been queued: counters.num_initializers already includes them (ExtendFromPrimariesAction::insert_impl) and fits the buffer (capacity check: c16_efp_insert) */
+__CPROVER_requires(self->nprimaries <= self->counters.num_initializers && self->counters.num_initializers <= self->init->capacity && self->init->capacity <= 2 * NP)
+__CPROVER_requires(self->primaries[tid].event_id < NEV && g_w < 2 * NP && g_w != IDX)
+__CPROVER_requires(self->init->track_counters[self->primaries[tid].event_id] < ((size_type)1 << 63))      /* stated range: an event's track counter does not wrap */
+__CPROVER_requires(g_old_counter == self->init->track_counters[self->primaries[tid].event_id] && g_oldw.sim.track_id == self->init->initializers[g_w].sim.track_id && g_oldw.particle.particle_id == self->init->initializers[g_w].particle.particle_id)
+__CPROVER_assigns(__CPROVER_object_whole(self->init))
+/* primary `tid` becomes the initializer at its own position among the newly queued ones (injective in tid: c02_index_after), inside the buffer */
+__CPROVER_ensures(IDX < self->init->capacity)
+/* ... with the primary's particle, energy, position, direction, time and event; a FRESH track id of that event (the counter advances by one); no parent */
+__CPROVER_ensures(self->init->initializers[IDX].particle.particle_id == self->primaries[tid].particle_id && SAME(self->init->initializers[IDX].particle.energy, self->primaries[tid].energy)
+   && SAME(self->init->initializers[IDX].geo.pos, self->primaries[tid].position) && SAME(self->init->initializers[IDX].geo.dir, self->primaries[tid].direction) && SAME(self->init->initializers[IDX].sim.time, self->primaries[tid].time)
+   && self->init->initializers[IDX].sim.event_id == self->primaries[tid].event_id)
+__CPROVER_ensures(self->init->initializers[IDX].sim.track_id == g_old_counter && self->init->track_counters[self->primaries[tid].event_id] == g_old_counter + 1 && self->init->initializers[IDX].sim.parent_id == INVALID_ID)
+/* frame: no other initializer is written */
+__CPROVER_ensures(self->init->initializers[g_w].sim.track_id == g_oldw.sim.track_id && self->init->initializers[g_w].particle.particle_id == g_oldw.particle.particle_id && self->init->capacity == __CPROVER_old(self->init->capacity))
+{""" + pc.body + """}
+void h_ppe(void)
+{
+    InitState st; Primary pr[NP]; ProcessPrimariesExecutor ex; ex.init = &st; ex.primaries = pr; ThreadId tid;
+    PPE_call(&ex, tid);
+    VERIF_CANARY();
+}
+""")
+
+
+UNITS += [
+    Unit("c02_process_primaries", build_process_primaries, "h_ppe", enforce="PPE_call", timeout=120, backend=["sat", "cvc5"], object_bits=10,
+         must_have=[r"PPE_call.postcondition", r"celer_expect"], checks=["--bounds-check", "--pointer-check", "--unsigned-overflow-check"],
+         assumptions=["make_track_id by the contract enforced in c02_make_track_id (atomics sequential)", "Real3 members abstracted to one component; at most 8 primaries / 16 initializer slots in the harness (the function has no loop)"],
+         note="ProcessPrimariesExecutor::operator(): primary tid becomes exactly the initializer at num_initializers - n + tid (inside the buffer) with its own particle / energy / position / direction / time / event, a fresh track id of that event and NO parent; no other initializer is written"),
+]
